@@ -66,32 +66,52 @@ def field_ty_text(f):
     return f["ty"]
 
 
-def render_bitfield(d):
-    lines = []
-    N = base_width(d)
+def decl_args_text(d):
+    """the argument list of #[bitfield(…)] as written (None: the attribute has no parentheses at all)"""
+    if "args_text" in d:
+        return d["args_text"]
     dflt = d["default"]
-    if dflt and dflt["form"] == "const":
-        cname = "C_%s" % d["name"].upper()
-        # for an arbitrary-int base the macro wraps the constant in `uN::new(…)`: it has the storage type
-        if d.get("docs"):
-            lines.append("/// default value")
-        lines.append("pub const %s: u%d = %d;" % (cname, storage_of(N) if N else 8, dflt["value"]))
-    if d.get("docs"):
-        lines.append("/// documented bitfield")
     args = [d["base"]]
     if dflt:
         val = ("C_%s" % d["name"].upper()) if dflt["form"] == "const" else ("%d" % dflt["value"])
         args.append("default %s %s" % ("=", val) if dflt["syntax"] == "=" else "default: %s" % val)
     if d["debug"]:
         args.append("debug")
-    lines.append("#[bitfield(%s)]" % ", ".join(args))
-    lines.append("pub struct %s {" % d["name"])
+    return ", ".join(args)
+
+
+def decl_consts(d):
+    """named constants a declaration's argument list refers to: [(name, value)]"""
+    out = []
+    dflt = d["default"]
+    if dflt and dflt["form"] == "const":
+        out.append(("C_%s" % d["name"].upper(), dflt["value"]))
+    out.extend(d.get("extra_consts", []))
+    return out
+
+
+def render_bitfield(d):
+    lines = []
+    N = base_width(d)
+    for cname, cval in decl_consts(d):
+        # for an arbitrary-int base the macro wraps the constant in `uN::new(…)`: it has the storage type
+        if d.get("docs"):
+            lines.append("/// default value")
+        lines.append("pub const %s: u%d = %d;" % (cname, storage_of(N) if N else 8, cval))
+    if d.get("docs"):
+        lines.append("/// documented bitfield")
+    at = decl_args_text(d)
+    lines.append("#[bitfield]" if at is None else "#[bitfield(%s)]" % at)
+    lines.append("pub %s %s {" % (d.get("item", "struct"), d["name"]))
     for f in d["fields"]:
         for k in range(f["ndocs"]):
             lines.append("    /// documented field %s (%d)" % (f["name"].replace("#", ""), k))
         for a in f["attrs"]:
             lines.append("    #[%s]" % a)
-        lines.append("    %s: %s," % (f["name"], field_ty_text(f)))
+        if d.get("item", "struct") == "enum":
+            lines.append("    %s," % f["name"])
+        else:
+            lines.append("    %s: %s," % (f["name"], field_ty_text(f)))
     lines.append("}")
     return lines
 
@@ -132,9 +152,9 @@ def proto_enum(d):
 
 def proto_bitfield(d):
     lines = []
-    dflt = d["default"]
-    ds = "none" if not dflt else "%s:%d" % (dflt["form"], dflt["value"])
-    lines.append("decl %s base=%s default=%s debug=%d struct=1" % (d["name"], d["base"], ds, 1 if d["debug"] else 0))
+    at = decl_args_text(d)
+    consts = ",".join("%s:%d" % cv for cv in decl_consts(d))
+    lines.append("decl %s struct=%d consts=%s :: %s" % (d["name"], 0 if d.get("item", "struct") != "struct" else 1, consts or "-", at or ""))
     for f in d["fields"]:
         lines.append("field %s %s %s %d %s" % (f["name"], f["ty"].replace(" ", ""), "-" if f["count"] is None else str(f["count"]),
                                                f["ndocs"], " ## ".join(f["attrs"])))
